@@ -256,6 +256,11 @@ func valueString(v Value) string {
 		if x == nil {
 			return "nilslice"
 		}
+		if traceFn != "" && len(x) > 0 {
+			if t, ok := x[0].(*Term); ok && !t.IsConst() {
+				return fmt.Sprintf("slice[len=%d cap=%d first=%s]", len(x), cap(x), t.String())
+			}
+		}
 		return fmt.Sprintf("slice[len=%d cap=%d]", len(x), cap(x))
 	case Iface:
 		if x.T == nil {
